@@ -1485,7 +1485,7 @@ End Top.
 
 (* the Go loop is [insert] = [insert_with merge_fuel] *)
 Lemma inserts_fold res qs : inserts merge_fuel res qs = fold_left insert qs (new_grid 1 1 res).
-Proof. reflexivity. Qed.
+Proof. unfold inserts, insert. reflexivity. Qed.
 
 (* ================================================================== 13. the executable predicate is empty on the model *)
 Lemma combine_seq_in {A} (l : list A) : forall s id q, In (id, q) (combine (seq s (length l)) l) -> nth_error l (id - s) = Some q /\ (s <= id)%nat.
